@@ -50,15 +50,17 @@ TABLE = {
             "Every documented rule is broken at every position of every base game; solve() must raise ValueError and the batch "
             "runner must record the message.", "deviation alphabet listed in DESIGN 2/C09", "2/C09"),
     "C10": ("explicit-state exploration of solve histories (BFS over operation sequences with canonical state de-duplication)",
-            "All sequences of solves (same/fresh object x pruned/unpruned) up to depth 4 on every game of the universe; after each "
-            "step the description equals the pristine copy and the result equals the reference result of that mode.",
+            "All histories up to depth 3 (thorough 4) over 8 operations (same/fresh object x pruned/unpruned solves, validation and counting on "
+            "the persistent object, fresh solves with the root logger at DEBUG) on every game of the universes, with de-duplication of canonical "
+            "states; after each step the description equals the pristine copy and the result equals the reference computed in a forked fresh process.",
             "state = deep snapshot of description + object attributes + module globals", "2/C10"),
     "C11": ("exhaustive parameter-grid enumeration through the real CLI/file path with structural oracle",
             "Every parameter combination of the grid is run through roberta_generator.main(), the file is read back by the "
             "solver's reader and each game is validated structurally and solved.", "grid bounds; termination only claimed on the solve grid", "2/C11"),
-    "C12": ("exhaustive enumeration of batch histories: all ordered selections of 0-3 games from a 10-game alphabet",
-            "run_games on every ordered selection; every entry equals the solo solve of that game; failures are recorded and do not "
-            "affect later games.", "alphabet of 10 games", "2/C12"),
+    "C12": ("exhaustive enumeration of batch histories: all ordered selections of 0-3 (thorough 0-4) games from a 10-game alphabet",
+            "run_games on every ordered selection (also a second time on the same dictionary, and through main -f FILE -s); every entry equals the "
+            "solo solve of that game computed in a forked fresh process; failures are recorded and do not affect later games.",
+            "alphabet of 10 games (solvable, unsolvable, malformed; own prune_states keys; colliding names)", "2/C12"),
     "C13": ("exhaustive group action: all state permutations x transition orders x renamings on stopping-game universes, metamorphic oracle",
             "Every presentation of every enumerated stopping game is solved and compared with the base presentation.",
             "tolerance 2*eps(G); boards at 1e-3", "2/C13"),
